@@ -55,7 +55,9 @@ def _simplicity(case):
     """order in which violations of one key are preferred as the reported (first) case"""
     if case["part"] == "func":
         axes = case.get("axes") or []
-        return (len(axes) or case.get("sdim", 0), sum(ax[0] + len(ax[2]) for ax in axes), case.get("oshape") == "unit")
+        rank = {"bspline": 0, "nurbs": 1, "user": 2, "composed": 3}[case["kind"]]
+        return (rank, len(axes) or case.get("sdim", 0), sum(ax[0] + len(ax[2]) for ax in axes), case.get("oshape") == "unit",
+                bool(case.get("restrict")))
     return (0,)
 
 
@@ -74,8 +76,8 @@ def run(ctx):
     notes = set()
     # ---------------------------------------------------------------- Part C: constructors
     cc = c07_ctor.ctor_cases()
-    for case, res in zip(cc, par.pmap(_ctor_worker, cc, allow_crash=True)):
-        probs = [("crash:%r" % res, "the interpreter was killed: %r" % res)] if isinstance(res, par.Crash) else res
+    for case in cc:                       # pure Python, a few ms each: evaluated in this process
+        probs = _ctor_worker(case)
         out.states += 1
         out.transitions += 1
         out.part("constructors", cases=1)
@@ -155,6 +157,7 @@ def run(ctx):
     ctx.log("functions: %d cases, largest deviation/scale among passing cases %.2e (tolerance %.0e)" % (len(fc), worst, c07_funcs.RTOL))
 
     out.extra["tolerated_observations"] = sorted(notes)
+    out.extra["violation_keys"] = dict(collections.Counter(v.key for v in out.violations))
     out.extra["worst_deviation_over_scale_passing_function_cases"] = worst
     out.rule = ("states = enumerated function cases (kind x spline space x output shape x weights x constructor form) + "
                 "distinct operation histories + constructor cases; transitions = implementation calls compared with the "
@@ -167,7 +170,7 @@ def run(ctx):
         % ("3/1 rotating" if quick else "all 16 / 4 rotating"),
         "values are decided on every unit coefficient tensor (B-spline routes are linear in the coefficients, NURBS routes in the "
         "control points for the three fixed weight arrays); other output shapes use small integer payloads chosen by VERIF_SEED",
-        "points: breakpoints, adjacent floats, span midpoints (3D unit-tensor cases: left neighbours only)",
+        "points: breakpoints, adjacent floats, span midpoints (sdim 3: of the adjacent floats only the left neighbours)",
         "a scalar function returned with output shape (1,) instead of () is tolerated (the BSplineFunc docstring calls both "
         "scalar-valued); occurrences are listed in coverage.tolerated_observations",
         "operations on objects with an overridden support other than boundary/copy/support are not generated (documentation silent)",
